@@ -330,7 +330,10 @@ func (session *BaseInSession) handleRtcpPacket(b []byte, rAddr *net.UDPAddr) err
 			session.mu.Unlock()
 			if rrBuf != nil {
 				if rAddr != nil {
-					_ = session.audioRtcpConn.Write2Addr(rrBuf, rAddr)
+					// 注意，对端可能只SETUP了其中一路，此时另一路的udp连接不存在
+					if session.audioRtcpConn != nil {
+						_ = session.audioRtcpConn.Write2Addr(rrBuf, rAddr)
+					}
 				} else {
 					_ = session.cmdSession.WriteInterleavedPacket(rrBuf, session.audioRtcpChannel)
 				}
@@ -342,7 +345,9 @@ func (session *BaseInSession) handleRtcpPacket(b []byte, rAddr *net.UDPAddr) err
 			session.mu.Unlock()
 			if rrBuf != nil {
 				if rAddr != nil {
-					_ = session.videoRtcpConn.Write2Addr(rrBuf, rAddr)
+					if session.videoRtcpConn != nil {
+						_ = session.videoRtcpConn.Write2Addr(rrBuf, rAddr)
+					}
 				} else {
 					_ = session.cmdSession.WriteInterleavedPacket(rrBuf, session.videoRtcpChannel)
 				}
